@@ -64,7 +64,9 @@ pub proof fn conversion_sound(c: char, d: bool, nd: bool, s: bool, ns: bool, w: 
     b.type_item('config.rs', r'^pub struct RegExpConfig \{')
     fnt, _, _ = X.fn(cl, 'convert_to_char_classes')
     reads = ''.join(X.let_stmt(fnt, f)[0] + '\n' for f in flags.split(', '))
-    b.emit("pub struct ClusterView<'a> { pub config: &'a RegExpConfig }\nimpl<'a> ClusterView<'a> {")
+    b.type_item('grapheme.rs', r'^pub struct Grapheme \{')
+    b.type_item('cluster.rs', r"^pub struct GraphemeCluster<'a> \{")
+    b.emit("impl<'a> GraphemeCluster<'a> {")
     b.slice_fn('flag_reads', 'pub fn flag_reads(&self) -> (r: (bool, bool, bool, bool, bool, bool))', reads, 'cluster.rs::convert_to_char_classes let-statements',
                props=['C07'], epilogue='(%s)' % flags,
                clauses=[Clause('classify.flag_reads', 'r == (self.config.is_digit_converted, self.config.is_non_digit_converted, self.config.is_space_converted, self.config.is_non_space_converted, self.config.is_word_converted, self.config.is_non_word_converted)', ['C03'])])
@@ -164,8 +166,7 @@ def build_rep(repo, spec_dir, canary=False):
     cl, rx = b.src('cluster.rs'), b.src('regexp.rs')
     f, _, _ = X.fn(cl, 'create_ranges_of_repetitions')
     body, _, _ = X.block_after(f, '.filter(|range| ')
-    b.emit('pub struct ConfigView { pub minimum_repetitions: u32 }')
-    b.slice_fn('rep_filter', 'pub fn rep_filter(range: &core::ops::Range<usize>, prefix_length: usize, config: &ConfigView) -> (r: bool)', body[1:-1],
+    b.slice_fn('rep_filter', 'pub fn rep_filter(range: &core::ops::Range<usize>, prefix_length: usize, config: &RegExpConfig) -> (r: bool)', body[1:-1],
                'cluster.rs::create_ranges_of_repetitions filter closure', props=['C07'],
                requires=['range.start <= range.end', 'prefix_length > 0', '(range.end - range.start) / (prefix_length as int) <= u32::MAX'],
                clauses=[Clause('rep_filter.strict', 'r == (((range.end - range.start) / (prefix_length as int)) > config.minimum_repetitions)', ['C13'])])
@@ -319,4 +320,60 @@ def build_order(repo, spec_dir, canary=False):
     b.emit('} // verus!\nfn main() {}')
     b.trusted += ['String: Ord is a total order, Equal only on identical strings (axioms axiom_str_cmp_total / axiom_str_cmp_trans); std sort / dedup / sort_by do what their documentation says (sort_by with a strict total order yields the unique sorted arrangement)',
                   'sort_by applies the closure as the comparator (closure plumbing dropped by the slice)']
+    return b
+
+def build_splice(repo, spec_dir, canary=False):
+    """C13: replace_graphemes_with_repetitions -- every quantified unit that is spliced in spans at least minimum_substring_length graphemes and has an exact count"""
+    b = _start('splice', repo, canary)
+    b.emit('use std::ops::Range;')
+    b.type_item('config.rs', r'^pub struct RegExpConfig \{')
+    b.type_item('grapheme.rs', r'^pub struct Grapheme \{')
+    b.emit(r"""
+pub assume_specification [<Grapheme as Clone>::clone] (e: &Grapheme) -> (r: Grapheme) ensures r == *e;
+// Vec::splice(range, one element) dropped at once: the range is replaced by that element (std); specified exactly
+#[verifier::external_body] pub fn vx_splice_one(v: &mut Vec<Grapheme>, range: core::ops::Range<usize>, g: Grapheme)
+    requires range.start <= range.end <= old(v)@.len()
+    ensures final(v)@ == old(v)@.subrange(0, range.start as int).push(g) + old(v)@.subrange(range.end as int, old(v)@.len() as int) { unimplemented!() }
+pub assume_specification<Idx: Clone> [<core::ops::Range<Idx> as Clone>::clone] (e: &core::ops::Range<Idx>) -> (r: core::ops::Range<Idx>) ensures r == *e;
+pub open spec fn from_input(g: Grapheme, input: Seq<Grapheme>) -> bool { exists|i: int| 0 <= i < input.len() && #[trigger] input[i] == g }
+// a quantified unit as the property wants it: it spans at least the configured number of graphemes and its count is exact
+pub open spec fn unit_ok(g: Grapheme, c: RegExpConfig) -> bool { g.chars@.len() >= c.minimum_substring_length && g.min == g.max }
+pub open spec fn all_ok(v: Seq<Grapheme>, input: Seq<Grapheme>, c: RegExpConfig) -> bool { forall|k: int| 0 <= k < v.len() ==> from_input(#[trigger] v[k], input) || unit_ok(v[k], c) }
+impl Grapheme {""")
+    b.verified_fn('grapheme.rs', 'new', within=r'^impl Grapheme \{', props=['C07'], fname='Grapheme::new',
+                  clauses=[Clause('grapheme.new', 'r.chars == chars && r.min == min && r.max == max && r.repetitions@.len() == 0', ['C13'])])
+    b.emit('}')
+    cl = b.src('cluster.rs')
+    f, _, _ = X.fn(cl, 'replace_graphemes_with_repetitions')
+    from vx import rustlex as L, dialect as D
+    bo = L.body_open(f, 0)
+    stop = f.find('for new_grapheme in repetitions.iter_mut()')
+    if stop < 0: raise X.LostAnchor('cluster.rs::replace_graphemes_with_repetitions third loop')
+    body = f[bo + 1:stop].rstrip()
+    sig = f[:bo].rstrip()
+    sig = re.sub(r'^\s*fn replace_graphemes_with_repetitions', 'pub fn splice_units', sig.strip())
+    def pre(text, log, where):
+        return D.desugar_continue(text, log, where)
+    b.slice_fn('splice_units', sig, body, 'cluster.rs::replace_graphemes_with_repetitions up to (not including) the loop that recurses into nested units', props=['C07'], pre=pre,
+               requires=['old(repetitions)@.len() == 0',
+                         'forall|k: int| 0 <= k < coalesced_repetitions@.len() ==> (#[trigger] coalesced_repetitions@[k]).0.start <= coalesced_repetitions@[k].0.end && coalesced_repetitions@[k].1@.len() > 0'],
+               clauses=[Clause('splice.units_respect_minimum_length', 'all_ok(final(repetitions)@, graphemes@, *config)', ['C13', 'C05'])],
+               extra_rules=[('R19', r'repetitions\.splice\(\s*range\.clone\(\),\s*\[(Grapheme::new\((?:[^()]|\([^()]*\))*\))\]\s*\.iter\(\)\s*\.cloned\(\),\s*\);', r'vx_splice_one(repetitions, range.clone(), \1);', 'Vec::splice(range, [g].iter().cloned()) dropped at once')],
+               loops={1: ['it1.seq().len() == graphemes@.len()', 'forall|k: int| 0 <= k < it1.seq().len() ==> *#[trigger] it1.seq()[k] == graphemes@[k]',
+                          ('splice.copies_input@loop1', ['C13'], 'repetitions@.len() == it1.index@ && forall|k: int| 0 <= k < repetitions@.len() ==> #[trigger] repetitions@[k] == graphemes@[k]')],
+                      2: ['forall|k: int| 0 <= k < coalesced_repetitions@.len() ==> (#[trigger] coalesced_repetitions@[k]).0.start <= coalesced_repetitions@[k].0.end && coalesced_repetitions@[k].1@.len() > 0',
+                          'it2.seq().len() == coalesced_repetitions@.len()', 'forall|k: int| 0 <= k < it2.seq().len() ==> *#[trigger] it2.seq()[k] == coalesced_repetitions@[k]',
+                          ('splice.units_respect_minimum_length@loop2', ['C13', 'C05'], 'all_ok(repetitions@, graphemes@, *config)')]},
+               blocks=[(2, 'loop_start', '        let ghost r0 = repetitions@; proof { assert(*it2.seq()[it2.index@] == coalesced_repetitions@[it2.index@]); }'),
+                       (2, 'loop_end', '''        proof {
+            assert forall|k: int| 0 <= k < repetitions@.len() implies from_input(#[trigger] repetitions@[k], graphemes@) || unit_ok(repetitions@[k], *config) by {
+                if repetitions@ != r0 {
+                    let s = range.start as int; let e = range.end as int;
+                    if k < s { assert(repetitions@[k] == r0[k]); } else if k == s { } else { assert(repetitions@[k] == r0[k - s - 1 + e]); }
+                }
+            }
+        }''', ('splice.units_respect_minimum_length@loop2', ['C13', 'C05']))])
+    b.emit('} // verus!\nimpl Clone for Grapheme { fn clone(&self) -> Self { unimplemented!() } }\nfn main() {}')
+    b.trusted += ['Vec::splice with a one-element iterator replaces the range by that element; the ranges of the unverified detection stage have start <= end and a non-empty unit (preconditions)',
+                  'the recursion into nested units (third loop: iter_mut + closure) is outside the slice and NOT decided']
     return b
